@@ -124,7 +124,10 @@ def rl_cases(draw):
     cfg = base_cfg(draw, lineup)
     cfg["rl"] = {"alpha": draw(st.sampled_from([-1, 0.1])), "eps": draw(st.sampled_from([0.0, 0.3, 1.0])), "agent_seed": 1,
                  "sched_seed": 2}
-    return {"cfg": cfg, "agent": agent, "script": script, "sessions": draw(st.lists(st.integers(1, 4), min_size=1, max_size=3))}
+    # losses: the real loss, or a script that can hit special values (an exact 0.0 = perfect fit, ties, increases)
+    losses = draw(st.one_of(st.none(), st.lists(st.sampled_from([0.0, 0.0, 1.0, 0.5, 2.0, 0.25]), min_size=2, max_size=8)))
+    return {"cfg": cfg, "agent": agent, "script": script, "sessions": draw(st.lists(st.integers(1, 4), min_size=1, max_size=3)),
+            "losses": losses}
 
 
 def check_rl(ctx: Ctx, case):
@@ -164,10 +167,12 @@ def check_rl(ctx: Ctx, case):
     agent = Scripted() if case["agent"] == "scripted" else Eps(n_act, cfg["rl"]["alpha"], cfg["rl"]["eps"], random_state=1)
     total = sum(case["sessions"])
     ctx.count(sub, case, total >= 3, [case["agent"], "halton-supplied" if has_halton else "halton-added",
-                                      f"sessions={len(case['sessions'])}"])
+                                      f"sessions={len(case['sessions'])}"] +
+              (["zero-loss"] if case.get("losses") and 0.0 in case["losses"] else []))
     with Logger() as lg, guard(ctx, "C09/exception", sub, case):
         sched = RLScheduler(supplied, agent=agent, env=MABCalibrationEnv(n_act), random_state=3)
-        cal = calib.build(cfg, scheduler=sched)
+        from harness.stubs import ScriptedLoss
+        cal = calib.build(cfg, scheduler=sched, loss=ScriptedLoss(case["losses"]) if case.get("losses") else None)
         with watchdog(60, "rl calibrate"):
             for nb in case["sessions"]:
                 cal.calibrate(nb)
